@@ -13,7 +13,7 @@ from datetime import datetime, timedelta, timezone
 from functools import wraps
 from importlib import metadata
 from itertools import chain
-from threading import RLock, get_ident
+from threading import RLock, get_ident, local as thread_local
 from typing import (
     Any,
     NamedTuple,
@@ -1454,6 +1454,19 @@ def db_retry(func: Callable) -> Callable:
 
     @wraps(func)
     def wrapper(self: "RedunBackendDb", *args, **kwargs):
+        if getattr(self._db_retry_local, "active", False):
+            # Nested call from another retrying operation. Rolling back here would silently
+            # discard the uncommitted work of the caller, so let the outermost operation
+            # roll back and retry as a whole.
+            return func(self, *args, **kwargs)
+
+        self._db_retry_local.active = True
+        try:
+            return _retry(self, *args, **kwargs)
+        finally:
+            self._db_retry_local.active = False
+
+    def _retry(self: "RedunBackendDb", *args, **kwargs):
         self._db_retries_attempt = 0
         while True:
             try:
@@ -1583,6 +1596,7 @@ class RedunBackendDb(RedunBackend):
         self._db_retries_backoff: float = float(config.get("db_retries_backoff", "1.0"))
         self._db_retries_backoff_max: float = float(config.get("db_retries_backoff_max", "60.0"))
         self._db_retries_attempt: int = 0
+        self._db_retry_local = thread_local()
 
     def clone(self, session: Session | None = None):
         """
@@ -2768,11 +2782,20 @@ class RedunBackendDb(RedunBackend):
         # Get or create task.
         self.record_value(task)
 
+        # The job may already be recorded if this operation is being retried after its commit.
+        db_job = self.session.query(Job).filter_by(id=job.id).first()
+        if db_job:
+            if not job.parent_job:
+                self._executions.pop(job.execution.id, None)
+            return db_job
+
         with with_defer_constraints(self.session):
             if not job.parent_job:
                 # Record top-level job for the execution.
-                current_execution = self._executions.pop(job.execution.id)
-                assert current_execution.job_id is None
+                # The pending execution is only forgotten once it has been committed, so that
+                # this operation can be retried.
+                current_execution = self._executions[job.execution.id]
+                assert current_execution.job_id in (None, job.id)
                 current_execution.job_id = job.id
                 self.session.add(current_execution)
 
@@ -2788,6 +2811,9 @@ class RedunBackendDb(RedunBackend):
             )
             self.session.add(db_job)
             self.session.commit()
+
+        if not job.parent_job:
+            self._executions.pop(job.execution.id, None)
 
         return db_job
 
